@@ -40,6 +40,8 @@ for line in io.lines() do
       res = show(pcall(hasher.base58encode, unhex(w[2])))
     elseif op == 'D' then
       res = show(pcall(hasher.base58decode, unhex(w[2])))
+    elseif op == 'h' then
+      res = show(pcall(stringer.hash, unhex(w[2])))
     elseif op == 'H' then
       local key = nil
       if w[3] ~= '-' then key = unhex(w[3]) end
